@@ -108,6 +108,21 @@ where
         self.interface.data(spi, data)
     }
 
+    /// select the whole RAM as window and start writing at its origin
+    fn use_full_frame(&mut self, spi: &mut SPI) -> Result<(), SPI::Error> {
+        let w = self.width();
+        let h = self.height();
+
+        self.command(spi, Command::RamXPosition)?;
+        self.send_data(spi, &[0, (w / 8 - 1) as u8])?;
+        self.command(spi, Command::RamYPosition)?;
+        self.send_data(spi, &[0, 0, ((h - 1) % 256) as u8, ((h - 1) / 256) as u8])?;
+        self.command(spi, Command::RamXAddressCount)?;
+        self.send_data(spi, &[0x00])?;
+        self.command(spi, Command::RamYAddressCount)?;
+        self.send_data(spi, &[0x00, 0x00])
+    }
+
     fn turn_on_display(
         &mut self,
         spi: &mut SPI,
@@ -216,6 +231,7 @@ where
         _delay: &mut DELAY,
         black: &[u8],
     ) -> Result<(), <SPI>::Error> {
+        self.use_full_frame(spi)?;
         self.command(spi, Command::WriteBlackData)?;
         self.send_data(spi, black)?;
         Ok(())
@@ -227,6 +243,7 @@ where
         _delay: &mut DELAY,
         chromatic: &[u8],
     ) -> Result<(), <SPI>::Error> {
+        self.use_full_frame(spi)?;
         self.command(spi, Command::WriteRedData)?;
         self.send_data(spi, chromatic)?;
         Ok(())
@@ -303,6 +320,7 @@ where
         buffer: &[u8],
         _delay: &mut DELAY,
     ) -> Result<(), <SPI>::Error> {
+        self.use_full_frame(spi)?;
         self.command(spi, Command::WriteBlackData)?;
         self.send_data(spi, buffer)?;
 
@@ -393,6 +411,7 @@ where
     fn clear_frame(&mut self, spi: &mut SPI, delay: &mut DELAY) -> Result<(), <SPI>::Error> {
         const SIZE: u32 = WIDTH / 8 * HEIGHT;
 
+        self.use_full_frame(spi)?;
         self.command(spi, Command::WriteBlackData)?;
         self.interface.data_x_times(spi, 0xff, SIZE)?;
 
